@@ -5,7 +5,7 @@
    shorter than 2^16 bytes, a root string shorter than 2^28, the encoding at most 2^24 bytes. *)
 From Coq Require Import ZArith List Bool.
 From TV Require Import Lib.MachInt Gen.JsonbBits Model.Jsonb Model.JsonText Model.JsonGrammar
-  Proof.Jsonb Proof.JsonbTop Proof.JsonbPath Proof.JsonText.
+  Proof.Jsonb Proof.JsonbTop Proof.JsonbPath Proof.JsonText Proof.JsonEndToEnd.
 Import ListNotations.
 Open Scope Z_scope.
 
@@ -97,10 +97,7 @@ Theorem json_text_jsonb_roundtrip :
   exists v n, parse_json num_of (render d) = Ok (v, n) /\
               tree_of_view (S (depth v)) (encode_value v) = Ok (canon (erase d)) /\
               jequiv (erase d) (canon (erase d)).
-Proof.
-  intros num_of d Hok Hfit. destruct (parse_json_ok_l num_of d Hok) as [Hp _].
-  exists (erase d), (blen (render d) - blen (trail d)). split; [exact Hp|]. split; [apply roundtrip_l; exact Hfit|apply canon_equiv_l].
-Qed.
+Proof. exact text_jsonb_roundtrip_l. Qed.
 
 (* the exclusion is necessary: "\ud83d\ude00" is JSON for U+1F600 and parse_json rejects it (recorded finding F-C32-2) *)
 Theorem json_text_surrogate_pair_refuted :
